@@ -92,9 +92,8 @@ inductive Loss where
   | writeFail         -- transport failure seen by the writer
   | holdExpiry        -- hold timer fired, NOTIFICATION 4/0 written
   | holdExpiryWriteErr -- hold timer fired, writing the NOTIFICATION failed
-  | notifRecv         -- NOTIFICATION received, not Cease/Hard-Reset
-  | notifRecvHard     -- NOTIFICATION Cease/9 (Hard Reset) received
-  | notifSent         -- we sent a NOTIFICATION (malformed message, …) through fsm.notification
+  | notifRecv (code sub : Nat) -- NOTIFICATION with this error code / subcode received
+  | notifSent (code sub : Nat) -- we sent this NOTIFICATION (malformed message, …) through fsm.notification
   | adminDown         -- administrative shutdown
   | prefixLimit       -- prefix limit exceeded: Cease/1 sent, connection closed by sendNotification
 deriving Repr, DecidableEq, Inhabited
@@ -120,9 +119,9 @@ def rawReason (enabled notif : Bool) : Loss → Reason × Bool × Bool
   | .writeFail => (.writeFailed, true, false)
   | .holdExpiry => if !enabled then (.holdTimerExpired, false, false) else (.notificationSent, true, true)
   | .holdExpiryWriteErr => if !enabled then (.holdTimerExpired, false, false) else (.writeFailed, true, false)
-  | .notifRecv => (.notificationRecv, true, false)
-  | .notifRecvHard => if enabled && notif then (.hardReset, true, false) else (.notificationRecv, true, false)
-  | .notifSent => (.notificationSent, false, false)
+  | .notifRecv code sub =>
+    if enabled && notif && code == 6 && sub == 9 then (.hardReset, true, false) else (.notificationRecv, true, false)
+  | .notifSent _ _ => (.notificationSent, false, false)
   | .adminDown => (.adminDown, false, false)
   | .prefixLimit => (.notificationSent, false, false)
 
